@@ -473,6 +473,20 @@ def rule_clash_whole(ctx: Ctx) -> None:
             "output/parameter clash test not recognised", key="clash-whole")
 
 
+def rule_axes_validator_whole(ctx: Ctx) -> None:
+    """validate_consistent_axes compares the axes of EVERY MapSpec it is given: a loop over its argument that skips some of them
+    (auto-generated ones, say) lets a later-added consumer disagree with exactly those about an array's axes."""
+    from ..flow import iterations
+
+    vca = ctx.prog.func("pipefunc.map._mapspec.validate_consistent_axes")
+    p0 = vca.param_names()[0]
+    its = [it for it in iterations(vca.node) if norm(it["iter"]) == p0 or norm(it["iter"]).startswith(p0 + ".")]
+    filt = [it for it in its if it["filters"]]
+    ctx.tri("1-wired", vca, (filt or its or [{"node": vca.node}])[0]["node"], bool(its) and not filt, bool(filt), "validate_consistent_axes looks at every MapSpec it is given",
+            f"validate_consistent_axes skips MapSpecs (`{filt[0]['filters'][0][0][:50] if filt else ''}`): arrays whose axes only those MapSpecs pin down are never compared - an inconsistent consumer is accepted at construction and at the start of map",
+            "iteration over the MapSpecs not recognised", key="axes-validator-whole")
+
+
 def rule_run_upfront(ctx: Ctx) -> None:
     """pipeline(...) / Pipeline.run: surplus and missing keyword arguments are to be rejected before a user function runs.
     Checked as: the test that guards the UnusedParametersError precedes (dominates) the evaluation, and the evaluation cannot be
@@ -501,7 +515,7 @@ def rule_run_upfront(ctx: Ctx) -> None:
 
 
 def check(ctx: Ctx) -> None:
-    for rule in (rule_wired, rule_no_user, rule_no_write, rule_unique_parameters, rule_clash_whole, rule_run_upfront):
+    for rule in (rule_wired, rule_no_user, rule_no_write, rule_unique_parameters, rule_clash_whole, rule_axes_validator_whole, rule_run_upfront):
         ctx.run(rule)
 
 
